@@ -325,6 +325,36 @@ impl<'a> MacroPass<'a> {
                     }
                 }
             }
+            "write" => {
+                // write!(dst, "lit{}lit", a, b) -> dst.vx_write_fmt(vx_concat(vec![...]))   (format=concat only)
+                if self.cfg.format != "concat" {
+                    return None;
+                }
+                let args: syn::punctuated::Punctuated<syn::Expr, syn::Token![,]> =
+                    match mac.parse_body_with(syn::punctuated::Punctuated::parse_terminated) {
+                        Ok(a) => a,
+                        Err(_) => { self.err = Some("unsupported construct: write! arguments".into()); return None; }
+                    };
+                let mut it = args.into_iter();
+                let dst = match it.next() { Some(d) => d, None => { self.err = Some("unsupported construct: write! without destination".into()); return None; } };
+                let fmt = match it.next() {
+                    Some(syn::Expr::Lit(syn::ExprLit { lit: syn::Lit::Str(s), .. })) => s.value(),
+                    _ => { self.err = Some("unsupported construct: write! without literal".into()); return None; }
+                };
+                let pieces = match split_format(&fmt) { Some(p) => p, None => { self.err = Some(format!("unsupported construct: format spec in {:?}", fmt)); return None; } };
+                let mut parts: Vec<TokenStream> = Vec::new();
+                for p in pieces {
+                    match p {
+                        Some(l) => parts.push(quote!(vx_s(#l).vx_disp())),
+                        None => match it.next() {
+                            Some(e) => parts.push(quote!((#e).vx_disp())),
+                            None => { self.err = Some("unsupported construct: write! hole without argument".into()); return None; }
+                        },
+                    }
+                }
+                bump(self.counts, "R6.write_concat");
+                Some(syn::parse_quote!(#dst.vx_write_fmt(vx_concat(vec![#(#parts),*]))))
+            }
             "panic" | "unreachable" | "unimplemented" | "todo" => {
                 if self.cfg.panic == "allow" {
                     bump(self.counts, "R6.panic_allowed");
@@ -655,6 +685,15 @@ impl<'a> VisitMut for StringPass<'a> {
         visit_mut::visit_expr_mut(self, e);
     }
 
+    fn visit_expr_path_mut(&mut self, p: &mut syn::ExprPath) {
+        // `String::new()` / `String::from(..)` : the associated functions of the mapped type
+        if p.qself.is_none() && p.path.segments.len() == 2 && p.path.segments[0].ident == "String" {
+            p.path.segments[0].ident = syn::Ident::new("Str", p.path.segments[0].ident.span());
+            bump(self.counts, "R5.assoc_fn");
+        }
+        visit_mut::visit_expr_path_mut(self, p);
+    }
+
     fn visit_pat_mut(&mut self, p: &mut syn::Pat) {
         // string literal patterns (match s { "a" => .. }) are left alone: Str has no literal patterns;
         // such matches are handled by the prelude's `vx_match_str!`-free rule: unsupported
@@ -974,6 +1013,8 @@ enum Consumer {
     Next,
     /// `V.extend(chain)`: push every element
     ExtendInto(syn::Expr),
+    /// `.fold(init, |acc, x| body)`
+    Fold(syn::Expr, syn::ExprClosure),
 }
 enum ChainSrc {
     Iter(syn::Expr),  // X.iter()
@@ -1048,6 +1089,7 @@ fn parse_chain(e: &syn::Expr) -> Option<(ChainSrc, Vec<Adapter>, Consumer)> {
         ("for_each", 1) => Consumer::ForEach(closure_of(&mc.args[0])?),
         ("collect", 0) => Consumer::Collect,
         ("next", 0) => Consumer::Next,
+        ("fold", 2) => Consumer::Fold(mc.args[0].clone(), closure_of(&mc.args[1])?),
         _ => return None,
     };
     let (src, adapters) = parse_adapters(&mc.receiver)?;
@@ -1201,10 +1243,14 @@ impl<'a> LoopPass<'a> {
             }
             Consumer::Next => {
                 let r_id = syn::Ident::new(&format!("__found{}", k), Span::call_site());
+                let decl: TokenStream = match &elem_ty {
+                    Some(t) => quote!(let mut #r_id: Option<#t> = None;),
+                    None => quote!(let mut #r_id = None;),
+                };
                 syn::parse_quote!({
                     let #s_id = #seq_init;
                     let mut #i_id: usize = 0;
-                    let mut #r_id = None;
+                    #decl
                     while #i_id < #s_id.len() && #r_id.is_none() {
                         #marker
                         #(#body)*
@@ -1227,6 +1273,31 @@ impl<'a> LoopPass<'a> {
                         #marker
                         #(#body)*
                         #r_id.push(#cur);
+                    }
+                    #r_id
+                })
+            }
+            Consumer::Fold(init, c) => {
+                if c.inputs.len() != 2 || has_return(&c.body) {
+                    return Err("unsupported construct: fold closure".into());
+                }
+                let r_id = syn::Ident::new(&format!("__fold{}", k), Span::call_site());
+                let p0 = match &c.inputs[0] { syn::Pat::Type(pt) => (*pt.pat).clone(), p => p.clone() };
+                let p1 = match &c.inputs[1] { syn::Pat::Type(pt) => (*pt.pat).clone(), p => p.clone() };
+                let mut b = (*c.body).clone();
+                self.closures += 1;
+                self.closure_params.push(c.inputs.to_token_stream().to_string());
+                self.visit_expr_mut(&mut b);
+                let mut init2 = init.clone();
+                self.visit_expr_mut(&mut init2);
+                syn::parse_quote!({
+                    let #s_id = #seq_init;
+                    let mut #i_id: usize = 0;
+                    let mut #r_id = #init2;
+                    while #i_id < #s_id.len() {
+                        #marker
+                        #(#body)*
+                        #r_id = { let #p0 = #r_id; let #p1 = #cur; #b };
                     }
                     #r_id
                 })
